@@ -199,6 +199,11 @@ def rule_R4(ctx):
                         hay_lower = True
             lits = _list_literals(P, hay)
             n += 1
+            if fn.startswith("build_absent"):
+                sel = sorted({T.short(x[1]) for x in T.calls_in(hay) if x[1].endswith(("::filter", "::filter_map", "::take", "::skip", "::take_while", "::skip_while", "::step_by", "::nth", "::retain"))})
+                ctx.check(not sel, "R4", fn + ":all-present-names", "every decoded header counts as present",
+                          "the set of present header names is built through %s: a header that was sent (e.g. with an empty value) is listed as absent although it also "
+                          "appears in the header order" % ",".join(sel), ctx.loc(b, blk))
             which = "optional" if any("optional" in x[1] for x in T.calls_in(hay)) else ("skip-value" if any("skip_value" in x[1] for x in T.calls_in(hay)) else "names")
             inst = "%s:%s" % (fn, which)
             if needle_lower and not hay_lower:
@@ -237,14 +242,14 @@ def rule_R4(ctx):
         ctx.check(got == want, "R4", fn + ":list-routing", "request_* lists iff is_request", "list selection is %s, expected %s" % (got, want), ctx.loc(b))
 
 
-def rule_R5(ctx):
+def rule_R5(ctx, rule="R5"):
     P = ctx.program
     b = P.method1(H2, "parse_single_frame")
     S = T.Slicer(b, P)
     # payload copy site
     cs = Q.calls(b, ["::to_vec", "::to_owned", "Vec::<T>::from"])
     if not cs:
-        ctx.cannot("R5", "parse_single_frame:payload", "payload copy not found", ctx.loc(b))
+        ctx.cannot(rule, "parse_single_frame:payload", "payload copy not found", ctx.loc(b))
         return
     blk, t = cs[0]
     conds = Q.canon_conds(P, T.dom_conds(b, S, blk))
@@ -261,13 +266,13 @@ def rule_R5(ctx):
             complete = True
         if T.has_call(a, "::len") and T.has_call(bb, "try_from") and ((c[1] == "Lt") != c[4]):
             complete = True
-    ctx.check(have9, "R5", "parse_single_frame:header", "needs 9 header bytes", "9-byte frame header guard missing", ctx.loc(b, blk))
-    ctx.check(maxok, "R5", "parse_single_frame:max", "length <= max_frame_size", "max_frame_size guard missing before the payload copy", ctx.loc(b, blk))
-    ctx.check(complete, "R5", "parse_single_frame:complete", "data.len() >= 9 + length", "completeness guard missing before the payload slice", ctx.loc(b, blk))
+    ctx.check(have9, rule, "parse_single_frame:header", "needs 9 header bytes", "9-byte frame header guard missing", ctx.loc(b, blk))
+    ctx.check(maxok, rule, "parse_single_frame:max", "length <= max_frame_size", "max_frame_size guard missing before the payload copy", ctx.loc(b, blk))
+    ctx.check(complete, rule, "parse_single_frame:complete", "data.len() >= 9 + length", "completeness guard missing before the payload slice", ctx.loc(b, blk))
     # field decoding offsets: length = be24(data[0..3]), type = data[3], flags = data[4], stream = be32(data[5..9]) & 0x7fffffff
     ag = Q.aggregates(b, "Http2Frame")
     if not ag:
-        ctx.cannot("R5", "parse_single_frame:fields", "Http2Frame not constructed", ctx.loc(b))
+        ctx.cannot(rule, "parse_single_frame:fields", "Http2Frame not constructed", ctx.loc(b))
         return
     i, j, s = ag[0]
     f = {n2: S.operand(o, i, j) for n2, o in zip(s["r"]["fields"], s["r"]["ops"])}
@@ -279,12 +284,12 @@ def rule_R5(ctx):
                 out.append(T.fold_int(x[2]))
         return sorted(set(out))
 
-    ctx.check(idxs(f["length"]) == [0, 1, 2], "R5", "frame:length-bytes", "length from bytes 0..3", "frame length read from bytes %s" % idxs(f["length"]), ctx.loc(b, i))
-    ctx.check(idxs(f["flags"]) == [4], "R5", "frame:flags-byte", "flags = byte 4", "flags read from bytes %s" % idxs(f["flags"]), ctx.loc(b, i))
-    ctx.check(idxs(f["frame_type"]) == [3], "R5", "frame:type-byte", "type = byte 3", "type read from bytes %s" % idxs(f["frame_type"]), ctx.loc(b, i))
+    ctx.check(idxs(f["length"]) == [0, 1, 2], rule, "frame:length-bytes", "length from bytes 0..3", "frame length read from bytes %s" % idxs(f["length"]), ctx.loc(b, i))
+    ctx.check(idxs(f["flags"]) == [4], rule, "frame:flags-byte", "flags = byte 4", "flags read from bytes %s" % idxs(f["flags"]), ctx.loc(b, i))
+    ctx.check(idxs(f["frame_type"]) == [3], rule, "frame:type-byte", "type = byte 3", "type read from bytes %s" % idxs(f["frame_type"]), ctx.loc(b, i))
     sid = f["stream_id"]
     mask = [T.fold_int(x[3]) for x in T.walk(sid) if x[0] == "binop" and x[1] == "BitAnd"]
-    ctx.check(idxs(sid) == [5, 6, 7, 8] and 0x7FFFFFFF in mask, "R5", "frame:stream-id", "stream id = be32(bytes 5..9) & 0x7fffffff",
+    ctx.check(idxs(sid) == [5, 6, 7, 8] and 0x7FFFFFFF in mask, rule, "frame:stream-id", "stream id = be32(bytes 5..9) & 0x7fffffff",
               "stream id read from bytes %s with mask %s" % (idxs(sid), mask), ctx.loc(b, i))
     # primary stream selection: first HEADERS on a non-zero stream
     fp = P.method1(H2, "find_primary_stream")
@@ -296,10 +301,17 @@ def rule_R5(ctx):
             gt0 = any(c[0] == "cmp" and c[1] == "Gt" and c[4] and T.fold_int(c[3]) == 0 and any(x[0] == "field" and x[2] == "stream_id" for x in T.walk(c[2])) for c in cs2)
             hdr = any(c[0] == "variant" and c[2] == "Headers" and c[3] for c in cs2)
             okp = gt0 and hdr
-    ctx.check(okp, "R5", "find_primary_stream", "first HEADERS frame with stream_id > 0", "primary stream is not selected as the first HEADERS frame on a non-zero stream", ctx.loc(fp))
+    ctx.check(okp, rule, "find_primary_stream", "first HEADERS frame with stream_id > 0", "primary stream is not selected as the first HEADERS frame on a non-zero stream", ctx.loc(fp))
+
+
+def rule_decoder_state(ctx):
+    """an HPACK dynamic table belongs to one connection: the shared decoder is re-created before each message is decoded (shared with C07.R1)"""
+    from . import C07
+    C07.rule_R1(ctx, "C07.R1")
 
 
 def run(ctx):
+    rule_decoder_state(ctx)
     rule_R1_R2(ctx, "Http2Parser", ("build_stream", "parse_headers_payload"), "http2_parser")
     rule_R2(ctx)
     rule_R3(ctx)
